@@ -48,6 +48,15 @@ def discarded (pre : CVol) : Bool :=
   | some sn => sn.idxLen == 0 && pre.ilog.length != 0
   | none => false
 
+/-- the (still readable, not rewritten during the copy) blob `id` carries a TTL and lives on a TTL
+    volume: the only step of a compaction that may remove it is the vacuum TTL filter, and only when
+    the blob has expired — which a blob that a read still returns has not -/
+def unexpiredTtlBlob (pre : CVol) (id : Nat) : Bool :=
+  (lastFor (suffixOf pre) id).isNone && pre.v.volTtl != (0, 0) &&
+  match liveRec pre id with
+  | some (r, _) => r.c.fl.hasTtl
+  | none => false
+
 /-- Why did a readable blob disappear at the commit?  One class per call site / cause; a cause that
     is not one of the recorded defects gets the generic class (⇒ VIOLATION). -/
 def dropClass (pre post : CVol) (alg : Nat) (nowSec : Nat) (id : Nat) : String :=
@@ -61,6 +70,7 @@ def dropClass (pre post : CVol) (alg : Nat) (nowSec : Nat) (id : Nat) : String :
      | some (r, a) => SwV.Spec.C09.removalClass false (volTtlOf pre.v) (needleOf r.c a)
      | none => "commit/drops-live-blob")
   else if readStep post.v id 0 = .ioerr then "CommitCompact/dat-truncated-behind-last-index-entry"
+  else if unexpiredTtlBlob pre id then "compact/removes-unexpired-ttl-blob"   -- a read returned it before the commit: it has not expired
   else "commit/drops-live-blob"
 
 /-- Judge of one read after a commit: `impl` = what the implementation returned (content if
